@@ -867,9 +867,9 @@ def gen_f90_file(rng, violations=True, nroutines=None):
 # ---- DynamicUboundCheckRule ------------------------------------------------------------------------------------
 UDRIVER = '''program c43umain
   implicit none
-  integer, parameter :: n1 = 3, n2 = 2
+  integer, parameter :: n1 = 3, n2 = 2, n3 = 4
   integer :: m
-  real :: v0(n1, n2), v1(n1), w(n1)
+  real :: v0(n1, n2), v1(n2), w(n3)
 %s
   m = 1
   v0 = 1.5
@@ -884,24 +884,32 @@ subroutine c43abort(msg)
 end subroutine c43abort
 '''
 
+UB_RANK = {'v0': 2, 'v1': 1, 'w': 1}
+UB_BOUND = {'v0': ['n1', 'n2'], 'v1': ['n2'], 'w': ['n3']}     # different bounds for the same dimension of different arrays
+
 def gen_ubound_file(rng, nroutines=None):
-    """-> text, expectation {'reported_lines': [...], 'shapes': {routine: {arg: [dims]}}, 'removed_ubound': [...]}"""
+    '''-> text, expectation {'rep_lines': own lines of removed checks and rewritten declarations, 'shapes': {routine:
+    {arg: [dims]}}, 'conds': {routine: [[ [array, dim, bound], ..] per check conditional, in source order]}, 'routines'}.
+    The UBOUND checks of several fully checked arrays are combined in ONE conditional in any order (same dimension of
+    different arrays next to each other, different bounds), also for the 2-D array.'''
     nr = nroutines or rng.choice([1, 1, 2])
-    lines, exp = [], {'rep_lines': [], 'shapes': {}, 'keeps': {}, 'routines': []}
+    lines, exp = [], {'rep_lines': [], 'shapes': {}, 'conds': {}, 'keeps': {}, 'routines': []}
     def emit(s, rep=False):
         lines.append(s)
         if rep: exp['rep_lines'].append(len(lines))
     for q in range(nr):
         nm = 'u%d' % q
-        arrs = {'v0': 2, 'v1': 1, 'w': 1}
-        bounds = {'v0': ['n1', 'n2'], 'v1': ['n1'], 'w': [rng.choice(['n1', '3'])]}
-        full = {a for a in arrs if rng.random() < 0.55}
+        arrs = UB_RANK
+        bounds = dict(UB_BOUND)
+        if rng.random() < 0.3: bounds['w'] = ['4']
+        full = {a for a in arrs if rng.random() < 0.65}
         part = {'v0'} if ('v0' not in full and rng.random() < 0.5) else set()
         exp['routines'].append(nm)
         exp['shapes'][nm] = {a: (bounds[a] if a in full else [':'] * arrs[a]) for a in arrs}
-        emit('SUBROUTINE %s (n1, n2, m, v0, v1, w)' % nm)
+        exp['conds'][nm] = []
+        emit('SUBROUTINE %s (n1, n2, n3, m, v0, v1, w)' % nm)
         emit('  IMPLICIT NONE')
-        emit('  integer, intent(in) :: n1, n2')
+        emit('  integer, intent(in) :: n1, n2, n3')
         emit(rng.choice(['  integer, intent(inout) :: m', '  INTEGER , INTENT(INOUT)::m   ! keep (:) me']))
         style = rng.choice(['own', 'dim', 'shared'])
         if style == 'shared':
@@ -916,32 +924,37 @@ def gen_ubound_file(rng, nroutines=None):
         emit('  real, intent(in) :: w(:)', rep='w' in full)
         emit('  integer :: i')
         emit('  ! body')
-        # the checks
-        chk = []
-        for a in sorted(full | part):
-            dims = list(range(1, arrs[a] + 1)) if a in full else [1]
-            if a in full and len(dims) == 2 and rng.random() < 0.4:
-                chk.append((a, dims, True))
-            else:
-                for dd in dims: chk.append((a, [dd], a in full))
-        rng.shuffle(chk)
+        # the checks: every (array, dimension) of a fully checked array once; grouped at random into conditionals
+        pairs = [(a, dd) for a in sorted(full) for dd in range(1, arrs[a] + 1)]
+        rng.shuffle(pairs)
+        groups = []
+        while pairs:
+            k = rng.choice([1, 1, 2, 2, 3, 4])
+            groups.append((pairs[:k], True)); pairs = pairs[k:]
+        for a in sorted(part):
+            groups.append(([(a, 1)], False))        # a partially checked array keeps its (separate) check
+        rng.shuffle(groups)
         def ub(a, dd):
             f = rng.choice(['ubound', 'UBOUND', 'UBound'])
             an = rng.choice([a, a.upper()])
             b = bounds[a][dd - 1]
             return rng.choice(['%s(%s, %d) < %s' % (f, an, dd, b), '%s > %s(%s, %d)' % (b, f, an, dd), '%s(%s,%d)<%s' % (f, an, dd, b)])
-        for a, dims, rem in chk:
-            cond = rng.choice([' .or. ', ' .OR. ']).join(ub(a, dd) for dd in dims)
+        for grp, rem in groups:
+            exp['conds'][nm].append([[a, dd, bounds[a][dd - 1]] for a, dd in grp])
+            cond = ''
+            for gi, (a, dd) in enumerate(grp):
+                cond += (rng.choice([' .or. ', ' .OR. ']) if gi else '') + ub(a, dd)
+            what = ' / '.join('%s:%d' % (a, dd) for a, dd in grp)
             if rem and rng.random() < 0.3:
-                emit("  if (%s) call c43abort('%s too short')" % (cond, a), rep=True)
+                emit("  if (%s) call c43abort('%s too short')" % (cond, what), rep=True)
             else:
                 emit('  %s (%s) %s' % (rng.choice(['if', 'IF']), cond, rng.choice(['then', 'THEN'])), rep=rem)
-                emit("    call c43abort('%s: dimension %s')" % (a, dims), rep=rem)
+                emit("    call c43abort('%s')" % what, rep=rem)
                 if rem and rng.random() < 0.3: emit('    ! never reached', rep=True)
                 emit('  %s' % rng.choice(['end if', 'ENDIF', 'END IF']), rep=rem)
             if rng.random() < 0.3: emit(rng.choice(['', '  ! next check']))
-        # other code, inside the class of the mechanism
-        emit('  do i = 1, n1')
+        # other code, inside the class of the mechanism; whole-array operations make the extents observable
+        emit('  do i = 1, n2')
         emit(rng.choice(['    v1(i) = v1(i) + w(i)*2.0', '    v1(i)=v0(i, 1)   +   w(i)']))
         emit('    %s (v1(i) > 3.0) %s' % rng.choice([('if', 'then'), ('IF', 'THEN')]))
         emit('      m = m + 1   ! count (:) big ones')
@@ -950,7 +963,9 @@ def gen_ubound_file(rng, nroutines=None):
             emit('      m = m+2')
         emit('    end if')
         emit(rng.choice(['  end do', '  ENDDO']))
-        emit(rng.choice(['  v0(1, 1) = v1(1)', '  v0(n1, n2) =   v1(n1)  -  1.0']))
+        emit(rng.choice(['  v0(1, 1) = v1(1)', '  v0(n1, n2) =   v1(n2)  -  1.0']))
+        emit('  m = m + size(v1) + 10*size(w)  +  100*size(v0, 1) + 1000*size(v0, 2)')
+        emit(rng.choice(['  v1 = v1 + 0.5', '  v0(:, 1) = v0(:, 1)*2.0', '  m = m + nint(sum(w)) + nint(sum(v1))']))
         emit("  PRINT *, 'ubound(v0, 1) is checked', m")
         emit('END SUBROUTINE %s' % nm)
         if q < nr - 1 and rng.random() < 0.5: emit('')
@@ -964,7 +979,7 @@ def ubound_driver(text, routines):
         s = [k for k, l in enumerate(L) if l.strip().lower().startswith('subroutine %s ' % nm)][0]
         e = [k for k in range(s, len(L)) if L[k].strip() == '! body'][0]
         ifs += ['  interface'] + ['  ' + l for l in L[s:e]] + ['    end subroutine %s' % nm, '  end interface']
-        calls += ['  call %s(n1, n2, m, v0, v1, w)' % nm, '  print *, m', "  print '(6F12.4)', v0, v1"]
+        calls += ['  call %s(n1, n2, n3, m, v0, v1, w)' % nm, '  print *, m', "  print '(8F12.4)', v0, v1"]
     return UDRIVER % ('\n'.join(ifs), '\n'.join(calls))
 
 # ------------------------------------------------------------------------------------------------------------
@@ -1079,6 +1094,25 @@ def _decls(lines):
             out.setdefault(mm.group(1), []).append((sorted(a for a in attrs if not a.startswith('dimension')), dims))
     return out
 
+def _routine_lines(lines):
+    res, cur = {}, None
+    for l in lines:
+        m = re.match(r'^\s*subroutine\s+(\w+)', l, re.I)
+        if m: cur = m.group(1).lower(); res[cur] = []
+        if cur: res[cur].append(l)
+        if re.match(r'^\s*end\s+subroutine', l, re.I): cur = None
+    return res
+
+def _declared_shapes(lines):
+    """{routine: {array: [extent, ..]}} of the REAL declarations in the given text (blank-free, lower case)"""
+    out = {}
+    for nm, ls in _routine_lines(lines).items():
+        out[nm] = {}
+        for a, ds in _decls(ls).items():
+            if len(ds) == 1 and ds[0][1]:
+                out[nm][a] = [x for x in re.split(r',(?![^()]*\))', ds[0][1][1:-1])]
+    return out
+
 # ------------------------------------------------------------------------------------------------------------
 # the property
 # ------------------------------------------------------------------------------------------------------------
@@ -1122,6 +1156,8 @@ class C43(Property):
     def run_impl(self, case):
         out = extract(case['text'], case['mode'])
         out['rep_lines'] = sorted(own_reported_lines(out['items']))
+        if case['mode'] == 'ubound':
+            out['ub_decl'] = _declared_shapes(out['fixed'])
         if case.get('gf') and 'check_error' not in out:
             from ..minif import gfortran_run
             ftext = '\n'.join(out['fixed']) + '\n'
@@ -1227,7 +1263,16 @@ class C43(Property):
             return None           # nothing was fixed and the model has no reports to work with
         rk = C('RUbound') if case['mode'] == 'ubound' else C('RF90')
         ok = self.oracle(case, out) is None
-        return coq(C('chk_output', rk, items, out['orig'], out['fixed'], raised, ok))
+        t = coq(C('chk_output', rk, items, out['orig'], out['fixed'], raised, ok))
+        conds = (case.get('exp') or {}).get('conds')
+        if case['mode'] == 'ubound' and conds and not raised:
+            # the extents written into the rewritten declarations = the model's selection (array name + dimension)
+            for nm, cs in conds.items():
+                shapes = case['exp']['shapes'][nm]
+                decl = [(a, [d.lower() for d in out['ub_decl'].get(nm, {}).get(a, [])]) for a in sorted(shapes) if ':' not in shapes[a]]
+                cm = [[C('Build_ubcmp', a, Nat(d), b.lower()) for a, d, b in grp] for grp in cs]
+                t = '(%s && %s)' % (t, coq(C('chk_ub_shapes', cm, decl)))
+        return t
 
     def nontrivial_key(self, case, out):
         if isinstance(out, dict) and out.get('reports'):
